@@ -11,6 +11,10 @@ package pub
 // untagged clauses belong to every property. Ghost state (held, authed, wrote, ...)
 // and the assumed contracts of the application interfaces are in /verif/spec.
 
+// ---- specification macros
+// the origin rule of C06: every object id of activity x has the host (host:port) of x's own id
+//@ specfun originOK(x) = GetId_1(x) == nil && (forall j Int :: {x.GetActivityStreamsObject().At(j)} 0 <= j && j < x.GetActivityStreamsObject().Len() ==> ToId_1(x.GetActivityStreamsObject().At(j)) == nil && ToId(x.GetActivityStreamsObject().At(j)).Host == GetId(x).Host)
+
 // The DelegateActor that baseActor talks to is taken to be the library's sideEffectActor;
 // a custom delegate (NewCustomActor) is assumed to meet the same contracts.
 //@ iface pub.DelegateActor.PostInboxRequestBodyHook satisfies (*pub.sideEffectActor).PostInboxRequestBodyHook
@@ -285,6 +289,9 @@ package pub
 //@ loop 1 [C11] decreases actor.Len() - i
 //@ [C11] requires has_id: activity.GetJSONLDId() != nil
 //@ [C11] ensures actor_present: authorized ==> activity.GetActivityStreamsActor() != nil
+//@ [C06] at call pub.FederatingProtocol.Blocked#1: assert every_actor_id_asked: len($arg2) == actor.Len() && (forall j Int :: {$arg2[j]} 0 <= j && j < actor.Len() ==> $arg2[j] == (actor.At(j).IsIRI() ? actor.At(j).GetIRI() : GetId(actor.At(j).GetType())))
+//@ loop 1 [C06] invariant collected: 0 <= i && i <= actor.Len() && len(iris) == i && (forall j Int :: {iris[j]} 0 <= j && j < i ==> iris[j] == (actor.At(j).IsIRI() ? actor.At(j).GetIRI() : GetId(actor.At(j).GetType())))
+//@ [C06] ensures blocked_is_refused: lastBlocked ==> !authorized
 
 //@ func (*pub.sideEffectActor).PostInbox
 //@ params a, c, inboxIRI, activity
@@ -474,6 +481,8 @@ package pub
 //@ loop 1 [C08] invariant unlocked: held == emp
 //@ [C10] ensures object_required: old(a.GetActivityStreamsObject() == nil || a.GetActivityStreamsObject().Len() == 0) ==> result == pub.ErrObjectRequired && eff == old(eff)
 //@ [C11] requires has_actor: a.GetActivityStreamsActor() != nil
+//@ [C06] ensures applied_only_within_origin: old(a.GetActivityStreamsObject() != nil && a.GetActivityStreamsObject().Len() > 0 && !originOK(a)) ==> result != nil && nUpdate == old(nUpdate)
+//@ loop 1 [C06] invariant origin_held: old(originOK(a))
 
 //@ func (pub.FederatingWrappedCallbacks).update$1
 //@ params iter
@@ -498,6 +507,8 @@ package pub
 //@ loop 1 [C08] invariant unlocked: held == emp
 //@ [C10] ensures object_required: old(a.GetActivityStreamsObject() == nil || a.GetActivityStreamsObject().Len() == 0) ==> result == pub.ErrObjectRequired && eff == old(eff)
 //@ [C11] requires has_actor: a.GetActivityStreamsActor() != nil
+//@ [C06] ensures applied_only_within_origin: old(a.GetActivityStreamsObject() != nil && a.GetActivityStreamsObject().Len() > 0 && !originOK(a)) ==> result != nil && nDelete == old(nDelete)
+//@ loop 1 [C06] invariant origin_held: old(originOK(a))
 
 //@ func (pub.FederatingWrappedCallbacks).deleteFn$1
 //@ params iter
@@ -881,11 +892,13 @@ package pub
 //@ params i
 //@ [C11] requires i != nil
 //@ [C11] ensures nonnil_id: result1 == nil ==> result0 != nil
+//@ pure ASH props idval
 
 //@ func pub.GetId
 //@ params t
 //@ [C11] requires t != nil
 //@ [C11] ensures nonnil_id: result1 == nil ==> result0 != nil
+//@ pure ASH props idval
 
 //@ func pub.getInboxForwardingValues
 //@ params o
@@ -932,6 +945,10 @@ package pub
 //@ func pub.mustHaveActivityOriginMatchObjects
 //@ params a
 //@ [C11] requires a != nil
+//@ [C06] ensures origin_checked: result == nil && a.GetActivityStreamsObject() != nil && a.GetActivityStreamsObject().Len() > 0 ==> originOK(a)
+//@ loop 1 [C06] invariant position: iter != nil ==> iter == op.At(ipos(iter)) && iparent(iter) == op && ilen(iter) == op.Len()
+//@ loop 1 [C06] invariant checked_so_far: forall j Int :: {op.At(j)} 0 <= j && j < (iter == nil ? op.Len() : ipos(iter)) ==> ToId_1(op.At(j)) == nil && ToId(op.At(j)).Host == originHost
+//@ loop 1 [C06] invariant origin: GetId_1(a) == nil && originHost == GetId(a).Host && op == a.GetActivityStreamsObject()
 
 //@ func pub.normalizeRecipients
 //@ params a
